@@ -25,7 +25,9 @@ Only these lexical normalisations are applied to copied text (each counted, see 
         let Some(&PAT) = E else { .. };      ->  let Some(__vp_k) = E else { .. }; let PAT = *__vp_k;
         if let Some(&PAT) = E {              ->  if let Some(__vp_k) = E { let PAT = *__vp_k;
         Some(&PAT) => ARM                    ->  Some(__vp_k) => { let PAT = *__vp_k; ARM }
-     (same meaning in Rust whenever both compile: the bindings inside PAT copy out of the reference)
+        for (&a, &(b, _)) in &MAP {          ->  for (__vf_0, __vf_1) in MAP.iter() { let a = *__vf_0; let (b, _) = *__vf_1;
+     (same meaning in Rust whenever both compile: the bindings inside PAT copy out of the reference; `for .. in &C` over a
+     std collection C is `for .. in C.iter()`)
   N6 (only with option `iter` on an assumed accessor) the return type `impl Iterator<Item = X> [+ '_]` is replaced by the
      prelude's `CopyIter<'_, X>` (Verus has no `impl Trait` returns); the accessor's contract is assumed
   N7 (only with option `tail-loop` on a function whose body ends in a single `loop { .. }` expression) `break EXPR;` inside that
@@ -475,8 +477,75 @@ class Normaliser:
         return s2
 
     # ---- N5 -----------------------------------------------------------------------------------------
+    def forpat(self, s):
+        """`for (&a, &(b, c, _)) in &EXPR {` -> `for (__vf_0, __vf_1) in EXPR.iter() { let a = *__vf_0; let (b, c, _) = *__vf_1;`
+        (N5 for loop patterns; `in &EXPR` over a std collection is `in EXPR.iter()`)."""
+        k = 0
+        while True:
+            sc = Scan(s)
+            m = None
+            for mm in re.finditer(r'\bfor\s*\(', s):
+                if not sc.is_code(mm.start()):
+                    continue
+                po = mm.end() - 1
+                pc = sc.match[po]
+                inner = s[po + 1:pc]
+                if '&' in inner and re.match(r'\s*in\b', s[pc + 1:]):
+                    m = (mm, po, pc)
+                    break
+            if not m:
+                return s
+            mm, po, pc = m
+            inner = s[po + 1:pc]
+            # split at top-level commas
+            parts, cur, depth = [], '', 0
+            for ch in inner:
+                if ch in '([{':
+                    depth += 1
+                elif ch in ')]}':
+                    depth -= 1
+                if ch == ',' and depth == 0:
+                    parts.append(cur)
+                    cur = ''
+                else:
+                    cur += ch
+            parts.append(cur)
+            newparts, lets = [], []
+            for prt in parts:
+                pt = prt.strip()
+                if pt.startswith('&'):
+                    var = f'__vf_{k}'
+                    k += 1
+                    newparts.append(var)
+                    lets.append(f'let {pt[1:].strip()} = *{var};')
+                else:
+                    newparts.append(pt)
+            im = re.match(r'\s*in\s*', s[pc + 1:])
+            e0 = pc + 1 + im.end()
+            # iterator expression up to the body brace
+            i = e0
+            ob = None
+            while i < len(s):
+                if sc.code[i]:
+                    ch = s[i]
+                    if ch in '([' and i in sc.match:
+                        i = sc.match[i] + 1
+                        continue
+                    if ch == '{':
+                        ob = i
+                        break
+                i += 1
+            if ob is None:
+                raise AnchorLost('N5: for loop without body')
+            expr = s[e0:ob].strip()
+            if expr.startswith('&') and not expr.startswith('&mut'):
+                expr = expr[1:].strip() + '.iter()'
+            s = (s[:po] + '(' + ', '.join(newparts) + ') in ' + expr + ' { ' + ' '.join(lets) + s[ob + 1:])
+            self.counts['N5_ref_pattern_desugared'] += 1
+
     def refpat(self, s):
         """desugar `Some(&PAT)` patterns (see module docstring). Raises AnchorLost on an unrecognised context."""
+        s = self.forpat(s)
         k = 0
         while True:
             sc = Scan(s)
@@ -912,11 +981,15 @@ def expand(template_path, repo):
                 if splices:
                     body = norm.splice(body, [tuple(x) for x in splices])
             if 'iter' in opts and sp['ret'] is not None:
-                rm = re.match(r"^impl\s+Iterator<Item\s*=\s*(.*)>\s*(\+\s*'_)?$", sp['ret'].strip(), re.S)
+                rt = sp['ret'].strip()
+                om = re.match(r"^Option<\s*(impl\s+Iterator<.*)>$", rt, re.S)
+                rm = re.match(r"^impl\s+Iterator<Item\s*=\s*(.*)>\s*(\+\s*'_)?$", (om.group(1) if om else rt).strip(), re.S)
                 if not rm:
                     raise AnchorLost(f'{rel}: fn {qn}: option iter but return type is {sp["ret"]!r}')
                 sp = dict(sp)
                 sp['ret'] = f"CopyIter<'_, {rm.group(1).strip()}>"
+                if om:
+                    sp['ret'] = f"Option<{sp['ret']}>"
                 norm.counts['N6_impl_iterator_return_type'] += 1
             if nobody:
                 # assumed function whose body cannot even be type-checked against this unit's opaque types
